@@ -2,12 +2,14 @@ package utils
 
 import (
 	"fmt"
+	"github.com/gr33nbl00d/caddy-revocation-validator/core/verifhook"
 	"go.uber.org/zap"
 	"log"
 	"time"
 )
 
 func Retry(attempts int, sleep time.Duration, logger *zap.Logger, f func() error) (err error) {
+	sleep = verifhook.Pace(sleep)
 	for i := 0; ; i++ {
 		err = f()
 		if err == nil {
